@@ -20,6 +20,8 @@ pub struct SynCfg {
   pub budget: i32,
   pub non_ascii: bool,
   pub long_lines: bool,
+  /// every identifier is longer than the heap's inline capacity (15 bytes), i.e. garbage-collectable
+  pub long_idents: bool,
 }
 
 pub struct CommentPlaced {
@@ -44,6 +46,13 @@ pub struct Syn<'t> {
 const LOWER: &[&str] = &["a", "b", "c", "x", "y", "foo", "bar", "acc", "i", "n", "value", "aVeryLongIdentifierNumberOne", "anotherQuiteLongLocalName2", "f", "g"];
 const UPPER: &[&str] = &["A", "B", "Foo", "Bar", "Option", "Some", "None", "List", "Pair", "ARatherLongClassNameForTests", "T", "Str", "Process", "Vec", "Main"];
 const TPARAM: &[&str] = &["T", "U", "V"];
+const LONG_LOWER: &[&str] = &[
+  "aVeryLongIdentifierNumberOne", "anotherQuiteLongLocalName2", "yetAnotherLongLowerName3", "someParameterWithLongName4", "theAccumulatorVariableName5", "fieldWithAVeryLongName6", "methodWithAVeryLongName7", "functionWithAVeryLongName8",
+  "anUnusedParameterLongName9", "longLambdaParameterName10", "patternBoundVariableName11", "valueOfTheStructField12",
+];
+const LONG_UPPER: &[&str] = &[
+  "ARatherLongClassNameForTests", "AnotherRatherLongClassName2", "SomeInterfaceWithALongName3", "VariantWithAVeryLongName4", "SecondVariantWithLongName5", "ImportedClassWithLongName6", "YetAnotherLongUpperName7", "TypeParameterLongName8",
+];
 const INTS: &[&str] = &["0", "1", "2", "3", "7", "42", "100", "65536", "1073741823", "1073741824", "2147483647", "-2147483648"];
 const STRS: &[&str] = &[
   "\"\"",
@@ -220,9 +229,15 @@ impl<'t> Syn<'t> {
   }
 
   fn lower(&mut self) -> &'static str {
+    if self.cfg.long_idents {
+      return LONG_LOWER[self.t.choose(LONG_LOWER.len())];
+    }
     LOWER[self.t.choose(LOWER.len())]
   }
   fn upper(&mut self) -> &'static str {
+    if self.cfg.long_idents {
+      return LONG_UPPER[self.t.choose(LONG_UPPER.len())];
+    }
     UPPER[self.t.choose(UPPER.len())]
   }
 
@@ -324,7 +339,7 @@ impl<'t> Syn<'t> {
       1,
       3,
       |s| {
-        let p = TPARAM[s.t.choose(TPARAM.len())];
+        let p = if s.cfg.long_idents { LONG_UPPER[5 + s.t.choose(3)] } else { TPARAM[s.t.choose(TPARAM.len())] };
         s.tok(p);
         if s.t.bool(1, 4) {
           s.tok(":");
